@@ -706,7 +706,12 @@ func scenarios(res *report.Result) []schedrun.Scenario {
 		})
 		add(2, cp2, ep2, func(c []cop, e []eop) int { return 1 })
 	} else {
-		add(1, cp, ep, func(c []cop, e []eop) int { return 1 })
+		add(1, cp, ep, func(c []cop, e []eop) int {
+			if len(c) <= 2 && len(e) == 1 {
+				return 2
+			}
+			return 1
+		})
 		add(2, cp2, ep2, func(c []cop, e []eop) int { return 1 })
 	}
 	return out
